@@ -3,7 +3,7 @@
    reference Locs, the new name is inserted verbatim.  Model / reference as in C06. *)
 From Coq Require Import List NArith ZArith Bool.
 From LH Require Import Base.Bytes Model.Lexer Model.Ast Model.Scope Model.Globals Model.Resolve Spec.LuaScope
-  Proofs.ResolveRun Proofs.ResolveBasics Proofs.ResolveWitness Proofs.ResolveFull Properties.C05.
+  Proofs.ResolveRun Proofs.ResolveBasics Proofs.ResolveWitness Proofs.ResolveFull Proofs.ResolveFixes Properties.C05.
 Import ListNotations.
 Local Open Scope N_scope.
 
@@ -87,10 +87,15 @@ Print Assumptions C11_B5_for_step_order_refuted.
 (* a.lua: local x = 1\nreturn x *)
 Definition w_doc_end : list (list N * list N) :=
   [([97; 46; 108; 117; 97], [108; 111; 99; 97; 108; 32; 120; 32; 61; 32; 49; 10; 114; 101; 116; 117; 114; 110; 32; 120])].
-(* cursor at offset == len(contents) (end of the last identifier of a file without trailing newline): definition/references/highlight/rename return nothing (`offset >= len(contents)`), hover still answers *)
-Theorem C11_doc_end_refuted : refs_deviates MRename w_doc_end [97; 46; 108; 117; 97] 1 8 = true.
+(* FIXED (fixes/C05-doc-end.diff): cursor at offset == len(contents) (end of the last identifier of a file without trailing
+   newline): definition/references/highlight/rename returned nothing (`offset >= len(contents)`) while hover answered.
+   The witness deviates for the code before the repair (`no_fixes`) and no longer for the code now in /repo. *)
+Theorem C11_doc_end_refuted_before_fix : refs_deviates_fx no_fixes w_doc_end MRename [97; 46; 108; 117; 97] 1 8 = true.
 Proof. vm_compute. reflexivity. Qed.
-Print Assumptions C11_doc_end_refuted.
+Print Assumptions C11_doc_end_refuted_before_fix.
+Theorem C11_doc_end_fixed : refs_deviates MRename w_doc_end [97; 46; 108; 117; 97] 1 8 = false.
+Proof. vm_compute. reflexivity. Qed.
+Print Assumptions C11_doc_end_fixed.
 
 (* a.lua: use(zq)\nuse(zq)\n *)
 Definition w_undefined_global : list (list N * list N) :=
@@ -121,10 +126,15 @@ Print Assumptions C11_split_global_refuted.
 Definition w_same_pos_other_file : list (list N * list N) :=
   [([97; 46; 108; 117; 97], [103; 32; 61; 32; 49; 10]);
    ([98; 46; 108; 117; 97], [103; 40; 41; 10])].
-(* references drop an occurrence in ANOTHER file that sits at the same line/column as the definition (ignoreDefineLoc is compared without the file name) *)
-Theorem C11_same_pos_other_file_refuted : refs_deviates MRename w_same_pos_other_file [97; 46; 108; 117; 97] 0 0 = true.
+(* FIXED (fixes/C06-same-pos-other-file.diff): references dropped an occurrence in ANOTHER file that sits at the same
+   line/column as the definition (ignoreDefineLoc was compared without the file name).  The witness deviates for the
+   code before the repair (`no_fixes`) and no longer for the code now in /repo. *)
+Theorem C11_same_pos_other_file_refuted_before_fix : refs_deviates_fx no_fixes w_same_pos_other_file MRename [97; 46; 108; 117; 97] 0 0 = true.
 Proof. vm_compute. reflexivity. Qed.
-Print Assumptions C11_same_pos_other_file_refuted.
+Print Assumptions C11_same_pos_other_file_refuted_before_fix.
+Theorem C11_same_pos_other_file_fixed : refs_deviates MRename w_same_pos_other_file [97; 46; 108; 117; 97] 0 0 = false.
+Proof. vm_compute. reflexivity. Qed.
+Print Assumptions C11_same_pos_other_file_fixed.
 
 
 Theorem C11_rename_full_refuted : ~ C11_rename_full.
